@@ -81,6 +81,27 @@ def clause1_nonblocking(ctx, P, cg):
                "a buffered socket is created for a descriptor that was not prepared (non-blocking) successfully")
     if ninit < 2:
         raise AnalysisBroken("buffered_socket_init sites in linux_io.c: %d" % ninit)
+    # socket options: only options that cannot make an operation on the loop thread wait
+    allowed = {}
+    for nm in ("SO_REUSEADDR", "SO_KEEPALIVE", "TCP_NODELAY", "TCP_KEEPIDLE", "TCP_KEEPINTVL", "TCP_KEEPCNT", "IPV6_V6ONLY"):
+        try:
+            allowed[nm] = Q.macro(P, "linux_io.c", nm)
+        except AnalysisBroken:
+            pass
+    levels = {nm: Q.const(P, "linux_io.c", nm) for nm in ("SOL_SOCKET", "IPPROTO_TCP", "IPPROTO_IPV6")}
+    ok_pairs = {(levels["SOL_SOCKET"], allowed.get("SO_REUSEADDR")), (levels["SOL_SOCKET"], allowed.get("SO_KEEPALIVE")),
+                (levels["IPPROTO_TCP"], allowed.get("TCP_NODELAY")), (levels["IPPROTO_TCP"], allowed.get("TCP_KEEPIDLE")),
+                (levels["IPPROTO_TCP"], allowed.get("TCP_KEEPINTVL")), (levels["IPPROTO_TCP"], allowed.get("TCP_KEEPCNT")),
+                (levels["IPPROTO_IPV6"], allowed.get("IPV6_V6ONLY"))}
+    nso = 0
+    for c in Q.call_sites(P, "setsockopt"):
+        nso += 1
+        pair = (P.const_int(c.a[1]), P.const_int(c.a[2]))
+        ctx.ob("C10.1 R-WHO", c.fn, Q.ordinal_site(c.fn, c, P), pair in ok_pairs,
+               "setsockopt(level %s, option %s) is not in the table of options that cannot make close()/send()/recv() wait on the "
+               "event-loop thread (e.g. SO_LINGER lets close() block until a non-reading peer acknowledges)" % pair, nontrivial=False)
+    if nso < 5:
+        raise AnalysisBroken("setsockopt sites: %d" % nso)
     # loops around the write wrapper
     nloops = 0
     for f in P.own_functions():
@@ -315,6 +336,20 @@ def clause5_cursor(ctx, P):
                 oko = oko and d is not None and d == ({twt: -1}, 0)
             if not (ok and oko):
                 bad = (v, "written > pending: to_write = 0=%s, vector offset = written - pending=%s" % (ok, oko))
+    # what the kernel accepted is accounted for on EVERY continuation, including refusals: a path on which the gathered write
+    # sent something (not everything) and which returns without updating to_write leaves sent bytes queued (sent twice)
+    sw = wv.calls("socket_writev_with_prefix")[0]
+    unacc = None
+    for v in Q.path_views(ctx, P, wv):
+        partial = v.has_atom(lambda a, p: a[0] == "cmp" and a[2][0] == "call" and a[2][3] == sw.id and a[3] == ("const", 0) and (a[1] if p else Q.negate_pred(a[1])) == "sgt")
+        allsent = v.has_atom(lambda a, p: a[0] == "cmp" and a[1] in ("eq", "ne") and a[2][0] == "call" and a[2][3] == sw.id and a[3][0] not in ("const", "null") and Q._poleq(a, p))
+        if partial and not allsent:
+            sts = [i for _, i in v.insts() if i.op == "store" and _fld(P.term(wv, i.a[1]), "to_write")]
+            if not sts:
+                unacc = v
+    ctx.ob("C10.5 R-CURSOR", wv, "sent-bytes-always-accounted", unacc is None,
+           "a path returns after a partial gathered write without removing the bytes the kernel accepted from the pending buffer: "
+           "they stay queued and are transmitted a second time", witness=unacc.witness() if unacc else None)
     ctx.ob("C10.5 R-CURSOR", wv, "pending-consumed-first", bad is None and n_le > 0 and n_gt > 0, bad[1] if bad else
            "partial write accounting is exact on %d + %d paths" % (n_le, n_gt), witness=bad[0].witness() if bad else None)
     # total = pending + sum of vector lengths
